@@ -418,6 +418,7 @@ func (r *Report) Order(rule string, u *Unit, b M, as []M, o OrderOpts) {
 type FollowOpts struct {
 	FromSuccess Success // start after A succeeded (NilErr ...) instead of right after A
 	ErrorExitsExempt bool
+	Assume      string // only paths consistent with this rule formula are considered
 	Min         int
 }
 
@@ -541,9 +542,23 @@ func (r *Report) Follow(rule string, u *Unit, a M, bs []M, o FollowOpts) {
 			}
 			starts = append(starts, start{asite.Block, asite.NodeIdx + 1})
 		}
+		var cut map[*flow.Block]bool
+		if o.Assume != "" {
+			cut = map[*flow.Block]bool{}
+			as := u.W.Parse(o.Assume)
+			for _, b := range u.G.Blocks {
+				if b.EdgeCond == nil || !b.Reachable() {
+					continue
+				}
+				if res := flow.Implies(flow.And(u.edgeFormula(b), as), flow.False()); res.Holds && res.Undecided == "" {
+					cut[b] = true
+				}
+			}
+			construct += " assuming " + o.Assume
+		}
 		var bad *pathStep
 		for _, st := range starts {
-			p := u.search(st.b, st.i, nil,
+			p := u.search(st.b, st.i, func(b *flow.Block) bool { return cut[b] },
 				func(b *flow.Block, i int) (bool, bool) {
 					if len(bsites[b][i]) > 0 {
 						return true, false
@@ -572,6 +587,7 @@ func (r *Report) Follow(rule string, u *Unit, a M, bs []M, o FollowOpts) {
 // ---------------------------------------------------------------- GUARD
 
 type GuardOpts struct {
+	AtBlockEntry bool // evaluate the condition as of entry to the site's basic block
 	Min  int
 	Max  int // 0 = no maximum
 	Name string
@@ -600,13 +616,21 @@ func (r *Report) Guard(rule string, u *Unit, m M, psi string, o GuardOpts) {
 	r.Min(rule, len(sites), max(o.Min, 1), u.Name+": "+m.Desc())
 	goal := u.W.Parse(psi)
 	for _, s := range sites {
-		r.GuardSite(rule, u, s, goal, psi)
+		r.guardSite(rule, u, s, goal, psi, o.AtBlockEntry)
 	}
 }
 
 func (r *Report) GuardSite(rule string, u *Unit, s *flow.Site, goal *flow.F, psi string) bool {
+	return r.guardSite(rule, u, s, goal, psi, false)
+}
+
+func (r *Report) guardSite(rule string, u *Unit, s *flow.Site, goal *flow.F, psi string, atEntry bool) bool {
 	construct := fmt.Sprintf("%s: %s under %s", u.Name, u.SiteString(s), psi)
 	pc := u.SitePC(s)
+	if atEntry {
+		pc = u.BlockEntryPC(s)
+		construct += " (at block entry)"
+	}
 	res := flow.Implies(pc, goal)
 	switch {
 	case res.Undecided != "":
